@@ -260,7 +260,9 @@ func secSmoothers(r *vlib.Run) {
 				pn := randUnit(rng)
 				pd := pn.Dot(in.im.pts[rng.Intn(len(in.im.pts))])
 				kk := 0.2 + rng.Float64()
-				cf := func(origin, cur C3) C3 { return pn.Scale(-kk * (pn.Dot(cur) - pd) * 0.1).Add(origin.Sub(cur).Scale(0.05)) }
+				cf := func(origin, cur C3) C3 {
+					return pn.Scale(-kk * (pn.Dot(cur) - pd) * 0.1).Add(origin.Sub(cur).Scale(0.05))
+				}
 				sm.ConstraintFunc = cf
 				ref.cfunc = cf
 				extra["constraint_func"] = fmt.Sprintf("plane n=%s d=%x k=%g", hex3(pn), pd, kk)
